@@ -102,6 +102,9 @@ def run(ck):
         ck.count(f'{rule} ops', schednorm.count_ops(trees[1]))
     r4_limits(ck, w)
     r5_mustcalls(ck, w)
+    # constraint-flow lints over the verifier gadget and aggregator files (shared engine of C04–C07)
+    from . import dprops
+    dprops.run_d(ck, w, 'C20', dict(advice=0, gadget_fns=40, d4=0, mustcall=8))
 
 
 def r4_limits(ck, w):
